@@ -176,7 +176,7 @@ class Representation(RepresentationBaseType):
             num_segments = len(dash_rep.segments) - 1
         if self.mode == 'vod':
             decode_time = self.segmentTemplate.presentationTimeOffset
-            start_number = 1
+            start_number = self.segmentTemplate.startNumber
         else:
             # technically, MPD@timeShiftBufferDepth is optional. When not present it
             # means depth == infinite for a live stream
